@@ -6,7 +6,7 @@ from hypothesis import strategies as st
 import pytenet as ptn
 from core import Part, require, Violation
 from gen_graph import layered_graph, build_graph, graph_desc_poly, chain_list, build_chains, chain_tuples, OID_ID, with_identity_id
-from oracle_sym import frac, graph_poly, graph_layers, poly_sum, poly_reverse, chains_poly, poly_close, absconv
+from oracle_sym import frac, graph_poly, graph_layers, poly_sum, poly_reverse, chains_poly, poly_close, absconv, require_consistent
 
 ID = 'C16'
 RULE = ('cases = histories: a consistent layered graph (length 1..6, layer widths 1..4, every node on a terminal-to-terminal path, parallel edges, '
@@ -169,7 +169,7 @@ def check_history(case, rec):
         else:
             raise ValueError(kind)
         nsteps += 1
-        require(g.is_consistent(), what + ': graph fails its own consistency check afterwards')
+        require_consistent(g, what + ' (afterwards)')
         require(g.length == L, what + ': length changed', got=g.length, want=L)
         got = graph_poly(g, conv)
         same_poly(got, want, exact, what, scale=scale)
@@ -234,16 +234,19 @@ def check_compiled(case, rec):
     g, h = graphs
     n0 = (len(g.nodes), len(g.edges))
     g.simplify()
-    require(g.is_consistent() and g.length == La, 'simplify broke consistency / length')
+    require_consistent(g, 'simplify (compiled graph)')
+    require(g.length == La, 'simplify changed the length')
     require((len(g.nodes), len(g.edges)) <= n0 and len(g.nodes) <= n0[0] and len(g.edges) <= n0[1], 'simplify increased the graph')
     same_poly(graph_poly(g, conv), polys[0], exact, 'simplify(compiled)', scale=mags[0])
     hs = snapshot(h)
     g.add(h)
     require(snapshot(h) == hs, 'add modified the other graph')
-    require(g.is_consistent() and g.length == La, 'add broke consistency / length')
+    require_consistent(g, 'add (compiled graph)')
+    require(g.length == La, 'add changed the length')
     same_poly(graph_poly(g, conv), poly_sum(polys[0], polys[1]), exact, 'add(compiled)', scale=sum(mags))
     g.flip()
-    require(g.is_consistent() and g.length == La, 'flip broke consistency / length')
+    require_consistent(g, 'flip (compiled graph)')
+    require(g.length == La, 'flip changed the length')
     same_poly(graph_poly(g, conv), poly_reverse(poly_sum(polys[0], polys[1])), exact, 'flip(compiled)', scale=sum(mags))
     rec.nontrivial = bool(len(polys[0]) >= 2 or len(polys[1]) >= 2)
     rec.label('L=%d' % La)
